@@ -940,6 +940,32 @@ pub fn gen_case(tier: Tier, seed: u64, idx: u64) -> Case {
         };
         REntry::Reader { chunking, faults }
     };
+    // from_multiple: half of the documents become streams - a few healthy lines are replaced by `---`
+    // (line numbering, and with it the k<n> convention, is untouched)
+    let mut doc = doc;
+    if matches!(entry, REntry::StrMulti) && matches!(target, RTarget::MapVec | RTarget::MapInt | RTarget::MapEnum) && rng.chance(1, 2) {
+        let healthy = |l: &str| -> bool {
+            let body = l.trim_end_matches(['\r', '\n']);
+            match body.split_once(": ") {
+                Some((k, v)) => {
+                    k.starts_with('k')
+                        && !k.starts_with('"')
+                        && (v == "Alpha" || v == "Beta" || (!v.is_empty() && v.chars().all(|c| c.is_ascii_digit() || " ,[]".contains(c))))
+                }
+                None => false,
+            }
+        };
+        let mut lines: Vec<String> = doc.split_inclusive('\n').map(|x| x.to_string()).collect();
+        let cands: Vec<usize> = lines.iter().enumerate().filter(|(_, l)| healthy(l)).map(|(i, _)| i).collect();
+        if !cands.is_empty() {
+            for _ in 0..rng.range(1, 3) {
+                let i = cands[rng.below(cands.len())];
+                let eol = if lines[i].ends_with("\r\n") { "\r\n" } else if lines[i].ends_with('\n') { "\n" } else { "" };
+                lines[i] = format!("---{eol}");
+            }
+            doc = lines.concat();
+        }
+    }
     Case::C17(RenderCase {
         doc: Doc::from_str(&doc),
         target,
